@@ -412,7 +412,12 @@ func execute(h history, cfg string, scratch string, only int) *execution {
 			evid.Fatalf("begin: %v", err)
 		}
 		if err := runActions(t, st.Actions, next); err != nil {
-			evid.Fatalf("history %s: action failed: %v", h.Name, err)
+			// the model says the operation is valid (e.g. the bucket exists): the database lost state
+			t.Rollback()
+			rec.Enabled = false
+			db.Close()
+			ex.Problems = append(ex.Problems, violation{Sig: "operation-fails-without-crash", What: fmt.Sprintf("commit %d: an operation that is valid in the model state %v failed on the database: %v", commits, cur, err)})
+			return ex
 		}
 		err = t.Commit()
 		failPlan = nil
@@ -711,18 +716,19 @@ func main() {
 		samples = append(samples, "none")
 	}
 	cov := evid.Coverage{
-		"evaluations":                  snaps,
-		"distinct_nontrivial":          nontrivial,
-		"crash_points_visited":         points,
-		"crash_states_reopened":        snaps,
-		"points_per_site":              sites,
-		"recovered_state_per_site":     outcomes,
-		"instrumented_statement_sites": ffldbInstrumented(),
-		"histories":                    len(hs),
-		"cache_configurations":         configs,
-		"max_block_file_size":          maxFile,
-		"exhaustive":                   true,
-		"samples":                      samples,
+		"evaluations":                             snaps,
+		"distinct_nontrivial":                     nontrivial,
+		"crash_points_visited":                    points,
+		"crash_states_reopened":                   snaps,
+		"copies_repeated_because_directory_moved": retries,
+		"points_per_site":                         sites,
+		"recovered_state_per_site":                outcomes,
+		"instrumented_statement_sites":            ffldbInstrumented(),
+		"histories":                               len(hs),
+		"cache_configurations":                    configs,
+		"max_block_file_size":                     maxFile,
+		"exhaustive":                              true,
+		"samples":                                 samples,
 		"rule": "for every history (3-7 commits mixing block stores that roll block files over at 256 bytes, metadata puts/deletes, bucket create/delete, an injected flat-file write failure that makes a commit fail, clean close+reopen) x cache configuration {flush on every commit, write-back with one flushing commit}: one execution visits every crash point = every statement of the instrumented ffldb functions + every flat-file WriteAt (also torn in the middle), Truncate, Sync, Close, Delete; the directory is copied at every point; evaluations = distinct (directory content, durable/interrupted context) copies, each reopened with the real driver; distinct_nontrivial = copies whose content differs from the content at the beginning of the commit/close in progress; " +
 			"oracle: Open succeeds without panic; the visible metadata and the set of fetchable blocks equal the model state after exactly one commit j with durable <= j <= interrupted; every indexed block fetches with its stored bytes; one more commit + close + reopen shows that state plus the new commit",
 	}
